@@ -4,6 +4,7 @@ import (
 	"fmt"
 	"go/token"
 	"go/types"
+	"strings"
 
 	"golang.org/x/tools/go/ssa"
 )
@@ -46,6 +47,22 @@ func runC10(r *Run, p *Prog) {
 		if len(ds) != 1 {
 			r.Unresolved("S1", "single decode of the request")
 			return
+		}
+		// every frame reaches the decoder: nothing but the JSON decoder judges a frame (a pre-check of its first byte
+		// would refuse `null`, which must be answered like a call without method)
+		{
+			okAll, w := everyPathPasses(entry, nil, isReturn, func(in ssa.Instruction) bool {
+				return in == ssa.Instruction(ds[0].Call) || ds[0].Inner != nil && in == ssa.Instruction(ds[0].Inner.Call)
+			})
+			if ds[0].Inner != nil {
+				// (the decode sits in a helper: the call of the helper is the decode)
+				okAll, w = everyPathPasses(entry, nil, isReturn, func(in ssa.Instruction) bool {
+					c, ok := in.(*ssa.Call)
+					return ok && (in == ssa.Instruction(ds[0].Call) || staticTarget(&c.Call) == ds[0].Inner.Fn)
+				})
+			}
+			r.Ob("S1", shortName(entry), "every frame is handed to the decoder", entry.Pos(), okAll,
+				"the dispatch entry can return without decoding the frame: some frames are judged by something other than the JSON decoder", witnessPos(p, w)...)
 		}
 		decErr := ds[0].ErrTerm(T)
 		n := 0
@@ -283,6 +300,38 @@ func runC10(r *Run, p *Prog) {
 		}
 		r.Stat("S6_calls_under_lock", n)
 		r.Floor("S6", 1)
+	})
+	// ---- S10
+	r.Guard("S10", func() {
+		// a reply that could not be written is reported to its caller: on every path on which the protocol write failed
+		// the writing function returns a non-nil error (the write error, a sentinel of the io package, a fresh error).
+		// A handler that streams replies has no other way to learn that its client is gone; if the failure is
+		// swallowed it never returns, the connection is never released and serving never drains.
+		n := 0
+		for _, w := range ro.WSites {
+			c, ok := w.Instr.(*ssa.Call)
+			if !ok {
+				continue
+			}
+			f := w.Fn
+			errT := "ext(" + T.T(c) + ",1)"
+			for _, rv := range returnedValues(f, f.Signature.Results().Len()-1) {
+				// (returns after the write)
+				if !(c.Block() == rv.Ret.Block() || c.Block().Dominates(rv.Ret.Block())) {
+					continue
+				}
+				n++
+				vt := T.T(rv.Val)
+				okv := vt == errT || strings.Contains(strip(vt), "global:io.") || strings.HasPrefix(strip(vt), "call:fmt.Errorf(") || strings.HasPrefix(strip(vt), "call:errors.New(")
+				if !okv {
+					// anything else (nil in particular) only where the write is known to have succeeded
+					okv = hasFact(T.FactsAt(rv.Ret.Block()), "EQ", errT, "nil")
+				}
+				r.Ob("S10", shortName(f), fmt.Sprintf("a failed reply write is reported to the caller (return #%d)", n), rv.Ret.Pos(), okv,
+					"on a path where the write of the reply may have failed the function returns "+strip(vt)+": the handler is told the reply was delivered - a handler that streams replies to a client that has gone never ends, and its connection is never released")
+			}
+		}
+		r.Floor("S10", 2)
 	})
 	// ---- S9
 	r.Guard("S9", func() {
